@@ -20,6 +20,7 @@ import (
 	"net/http/httptest"
 	"net/netip"
 	"net/url"
+	"sort"
 	"strings"
 	"testing"
 	"time"
@@ -139,19 +140,23 @@ func TestC19(t *testing.T) {
 		if err != nil {
 			c.Fatalf("valid configuration rejected: %v", err)
 		}
-		nMappings := c.Int("mappings.n", 0, 6)
-		for i := 0; i < nMappings; i++ {
-			lbl := c19Labels[c.Pick("mapping.label", len(c19Labels))]
-			if c.Chance("mapping.idn", 1, 8) {
-				lbl = c19Puny
+		// setMapping stores (or overwrites) a mapping, directly or through the
+		// dashboard's confirmation handler; name == "" draws a name.
+		setMapping := func(name string) string {
+			lbl := strings.TrimSuffix(name, ".myco")
+			if name == "" {
+				lbl = c19Labels[c.Pick("mapping.label", len(c19Labels))]
+				if c.Chance("mapping.idn", 1, 8) {
+					lbl = c19Puny
+				}
+				if c.Chance("mapping.sub", 1, 4) {
+					lbl = "www." + lbl
+				}
+				if c.Chance("mapping.deep", 1, 6) {
+					lbl = c19Deep[c.Pick("mapping.deep.name", len(c19Deep))]
+				}
 			}
-			if c.Chance("mapping.sub", 1, 4) {
-				lbl = "www." + lbl
-			}
-			if c.Chance("mapping.deep", 1, 6) {
-				lbl = c19Deep[c.Pick("mapping.deep.name", len(c19Deep))]
-			}
-			name := lbl + ".myco" // the dashboard stores cleaned names
+			name = lbl + ".myco" // the dashboard stores cleaned names
 			ip := ipOf("mapping.ip")
 			if c.Chance("mapping.via-dashboard", 1, 2) {
 				// Through the dashboard's confirmation handler, with the name as a
@@ -189,6 +194,11 @@ func TestC19(t *testing.T) {
 				c.Fatalf("save mapping: %v", err)
 			}
 			mMapping[name] = ip
+			return name
+		}
+		nMappings := c.Int("mappings.n", 0, 6)
+		for i := 0; i < nMappings; i++ {
+			setMapping("")
 		}
 		srv, err := dns.New(node, c19Conn{}, node.Store)
 		if err != nil {
@@ -217,33 +227,76 @@ func TestC19(t *testing.T) {
 		}
 
 		nq := c.Int("queries", 1, 40)
+		asked := map[string][]string{} // normalised name -> spellings queried so far
 		for qi := 0; qi < nq; qi++ {
+			// The mapping source changes while the server runs (the user confirms
+			// another router for a mapped name, deletes a mapping, opens a new
+			// name); the next query often asks for the changed name, in a spelling
+			// used before.
+			changed := ""
+			if c.Chance("mapping.change", 1, 6) {
+				names := make([]string, 0, len(mMapping))
+				for n := range mMapping {
+					names = append(names, n)
+				}
+				sort.Strings(names)
+				kind := c.Pick("mapping.change.kind", 3)
+				switch {
+				case kind == 0 && len(names) > 0:
+					changed = setMapping(names[c.Pick("mapping.change.name", len(names))])
+					c.Class("mapping-overwritten-while-serving")
+				case kind == 1 && len(names) > 0:
+					changed = names[c.Pick("mapping.change.name", len(names))]
+					if err := node.Store.DeleteMapping(changed); err != nil {
+						c.Fatalf("delete mapping: %v", err)
+					}
+					delete(mMapping, changed)
+					c.Class("mapping-deleted-while-serving")
+				default:
+					changed = setMapping("")
+					c.Class("mapping-added-while-serving")
+				}
+			}
 			// Name.
 			var qname string
-			switch c.Weighted("q.name", 10, 3, 2, 1, 1) {
-			case 0:
-				lbl := c19Labels[c.Pick("q.label", len(c19Labels))]
-				if c.Chance("q.idn", 1, 8) {
-					lbl = c19Puny
+			reuse := false
+			if changed != "" && c.Chance("q.changed-name", 3, 4) {
+				if sp := asked[changed]; len(sp) > 0 && c.Chance("q.changed-name.same-spelling", 2, 3) {
+					qname, reuse = sp[c.Pick("q.changed-name.spelling", len(sp))], true
+					c.Class("changed-name-asked-again-in-an-earlier-spelling")
+				} else {
+					qname = changed + "."
 				}
-				if c.Chance("q.sub", 1, 4) {
-					lbl = "www." + lbl
+			} else {
+				switch c.Weighted("q.name", 10, 3, 2, 1, 1) {
+				case 0:
+					lbl := c19Labels[c.Pick("q.label", len(c19Labels))]
+					if c.Chance("q.idn", 1, 8) {
+						lbl = c19Puny
+					}
+					if c.Chance("q.sub", 1, 4) {
+						lbl = "www." + lbl
+					}
+					if c.Chance("q.deep", 1, 6) {
+						lbl = c19Deep[c.Pick("q.deep.name", len(c19Deep))]
+						c.Class("query-below-a-myco-like-label")
+					}
+					qname = lbl + ".myco."
+				case 1:
+					qname = core.OneOf(c, "q.other", "example.com.", "myco.example.", "alice.mycox.", "alice.myco.com.", "router.", "alicemyco.", ".")
+				case 2:
+					qname = core.OneOf(c, "q.tld", "myco.", "MYCO.", ".myco.")
+				case 3:
+					qname = core.OneOf(c, "q.escape", `a\.b.myco.`, `alice\032x.myco.`, `\000.myco.`, strings.Repeat("a", 63)+".myco.")
+				default:
+					qname = strings.Repeat("a.", 100) + "myco."
 				}
-				if c.Chance("q.deep", 1, 6) {
-					lbl = c19Deep[c.Pick("q.deep.name", len(c19Deep))]
-					c.Class("query-below-a-myco-like-label")
-				}
-				qname = lbl + ".myco."
-			case 1:
-				qname = core.OneOf(c, "q.other", "example.com.", "myco.example.", "alice.mycox.", "alice.myco.com.", "router.", "alicemyco.", ".")
-			case 2:
-				qname = core.OneOf(c, "q.tld", "myco.", "MYCO.", ".myco.")
-			case 3:
-				qname = core.OneOf(c, "q.escape", `a\.b.myco.`, `alice\032x.myco.`, `\000.myco.`, strings.Repeat("a", 63)+".myco.")
-			default:
-				qname = strings.Repeat("a.", 100) + "myco."
 			}
-			switch c.Pick("q.case", 3) {
+			qcase := 0
+			if !reuse {
+				qcase = c.Pick("q.case", 3)
+			}
+			switch qcase {
 			case 1:
 				qname = strings.ToUpper(qname)
 			case 2:
@@ -253,7 +306,13 @@ func TestC19(t *testing.T) {
 			}
 			// Type and class.
 			var qtype uint16
-			switch c.Weighted("q.type", 10, 3) {
+			tw := 3
+			if changed != "" {
+				tw = 0
+			}
+			switch c.Weighted("q.type", 10, tw, 20-tw*6) {
+			case 2:
+				qtype = core.OneOf(c, "q.type.resolving", mdns.TypeAAAA, mdns.TypeAAAA, mdns.TypeSVCB, mdns.TypeHTTPS, mdns.TypeANY, mdns.TypeA)
 			case 0:
 				qtype = core.OneOf(c, "q.type.addr", mdns.TypeA, mdns.TypeAAAA, mdns.TypeSVCB, mdns.TypeHTTPS, mdns.TypeANY, mdns.TypeTXT, mdns.TypeMX, mdns.TypeCNAME, mdns.TypeNS, mdns.TypePTR)
 			default:
@@ -330,9 +389,29 @@ func TestC19(t *testing.T) {
 				}
 			}
 
+			if underMyco {
+				seen := false
+				for _, sp := range asked[norm] {
+					seen = seen || sp == req.Question[0].Name
+				}
+				if !seen {
+					asked[norm] = append(asked[norm], req.Question[0].Name)
+				}
+			}
 			var aaaa []netip.Addr
 			for _, sec := range [][]mdns.RR{rep.Answer, rep.Extra, rep.Ns} {
 				for _, rr := range sec {
+					if sv, ok := rr.(*mdns.SVCB); ok {
+						for _, kv := range sv.Value {
+							if h, ok := kv.(*mdns.SVCBIPv6Hint); ok {
+								for _, hip := range h.Hint {
+									if ip, ok := netip.AddrFromSlice(hip); ok {
+										aaaa = append(aaaa, ip)
+									}
+								}
+							}
+						}
+					}
 					if a, ok := rr.(*mdns.AAAA); ok {
 						if ip, ok := netip.AddrFromSlice(a.AAAA); ok {
 							aaaa = append(aaaa, ip)
